@@ -16,7 +16,7 @@ IniEnd  == IsEvent("IniEnd") /\ IniEndOk(R.i, R.ok, R.t, st) /\ st' = AfterIniEn
 Win     == IsEvent("Win") /\ WinOk(R.open, R.failures, R.advertised, R.expiry, R.t, st) /\ st' = AfterWin(R.open, R.failures, R.advertised, R.expiry, R.t, st)
 Proof   == IsEvent("Proof") /\ ProofOk(R.i, R.t, st) /\ st' = AfterProof(R.i, R.t, st)
 End     == IsEvent("End") /\ EndOk(st) /\ UNCHANGED st
-Other   == i <= Len(Rec) /\ Rec[i].ev \in {"Hs", "Step", "StepSkipped", "Cancel", "Mark"} /\ i' = i + 1 /\ UNCHANGED st
+Other   == i <= Len(Rec) /\ Rec[i].ev \notin {"Reset", "Open", "Close", "Start", "DevSess", "IniEnd", "Win", "Proof", "End"} /\ i' = i + 1 /\ UNCHANGED st
 Next == Reset \/ Open \/ Close \/ Start \/ DevSess \/ IniEnd \/ Win \/ Proof \/ End \/ Other
 Spec == Init /\ [][Next]_vars
 TraceAccepted ==
